@@ -29,20 +29,23 @@ def _c11_units():
     mixed = [] if 'ssi_mixed_storage_index_does_not_compile' in sigs else ['-DC11_MIXED_STORAGE_INDEX']
     reals = (('d', 'double', 1), ('f', 'float', 0), ('l', 'long double', 0))
     units = []
+    # -g0: debug information for ~100 template instantiations per binary costs 40 % of the build time and is never used
+    # (failures are reproduced from the tape, which prints a decoded recipe)
+    fast = ['-g0']
     # slowest translation units first (they all build in parallel; none needs more than ~2 min)
     for tag, ty, li in reals:
         for part in (1, 2):
             units.append(dict(name='c11_solve_%s%d' % (tag, part), src='c11_solve.cpp',
-                              flags=['-DVF_REAL=' + ty, '-DC11_PART=%d' % part, '-DC11_LONG_INDEX=%d' % li] + hdr_wa))
+                              flags=['-DVF_REAL=' + ty, '-DC11_PART=%d' % part, '-DC11_LONG_INDEX=%d' % li] + hdr_wa + fast))
     for tag, ty, li in reals:
         for part in (1, 2):
-            units.append(dict(name='c11_composite_%s%d' % (tag, part), src='c11_composite.cpp', flags=['-DVF_REAL=' + ty, '-DC11_PART=%d' % part] + hdr_wa))
+            units.append(dict(name='c11_composite_%s%d' % (tag, part), src='c11_composite.cpp', flags=['-DVF_REAL=' + ty, '-DC11_PART=%d' % part] + hdr_wa + fast))
     for tag, ty, li in reals:
         for part in (1, 2):
             units.append(dict(name='c11_ssi_%s%d' % (tag, part), src='c11_symshiftinvert.cpp',
-                              flags=['-DVF_REAL=' + ty, '-DC11_PART=%d' % part, '-DC11_LONG_INDEX=%d' % li] + (mixed if (li and part == 2) else [])))
+                              flags=['-DVF_REAL=' + ty, '-DC11_PART=%d' % part, '-DC11_LONG_INDEX=%d' % li] + (mixed if (li and part == 2) else []) + fast))
     for part, tag in ((1, 'dense_real'), (2, 'dense_complex'), (3, 'sparse_real'), (4, 'sparse_complex')):
-        units.append(dict(name='c11_prod_' + tag, src='c11_prod.cpp', flags=['-DC11_PART=%d' % part]))
+        units.append(dict(name='c11_prod_' + tag, src='c11_prod.cpp', flags=['-DC11_PART=%d' % part] + fast))
     # header self-containment: one tiny binary per MatOp header, built only (never run)
     for h in _C11_MATOP_HEADERS:
         if hdr_open and h in ('SparseRegularInverse', 'internal/SymGEigsRegInvOp'):
